@@ -114,6 +114,15 @@ def run_tie2(prop, P, tier, rng, replay=None, facts=None):
                                          dict(kind='impl-counterexample', stream=stream, cfg=cfg, profile=profile, case=ops,
                                               impl_observation=io, model_observation=mo, why=why)))
                     noracle += 1
+                elif mo is not None and io != mo and 'refine' in spec and spec['refine'](ops, io, mo, ctx):
+                    # a disagreement that is, read against the property, a failure of the implementation
+                    why2 = spec['refine'](ops, io, mo, ctx)
+                    scov['oracle_failures'] += 1
+                    if noracle < 5:
+                        problems.append(('oracle', '%s: %s' % (cid, why2),
+                                         dict(kind='impl-counterexample', stream=stream, cfg=cfg, profile=profile, case=ops,
+                                              impl_observation=io, model_observation=mo, why=why2)))
+                    noracle += 1
                 elif mo is None or io != mo:
                     scov['disagreements'] += 1
                     if nfail < 5:
@@ -378,6 +387,18 @@ def oracle_mech(ops, io, ctx):
         i += 2
     return None
 
+def refine_mech(ops, io, mo, ctx):
+    """the deprecated Arc::write / as_mut_slice on a handle that is not the sole owner must decline with a panic (C03,
+    C15): the model says so from the history; an implementation that goes on instead is a failure, not just a difference"""
+    for k, (a, b) in enumerate(zip(io[:-1], mo[:-1])):
+        if a == b: continue
+        if k < len(ops) and ops[k] and ops[k][0] == 38:
+            sa = mechgen.split_obs(a)[0]; sb = mechgen.split_obs(b)[0]
+            if sb == 2 and sa == 0:
+                return 'op %d %s: the deprecated write through a handle that is not the sole owner went ahead instead of panicking (mutable access to a shared value)' % (k, ops[k])
+        return None
+    return None
+
 def nontrivial_mech(ops, io):
     kinds = set(op[0] for op in ops)
     return len(kinds & {23, 24, 34, 35, 36, 41, 43, 44, 45, 38, 40}) >= 2
@@ -407,7 +428,7 @@ def mech_stream(focuses, orderings=False, count_oracle=True, ctx_extra=None):
     extra = dict(model_map=mech_model_map) if orderings else dict(model_map=mech_model_map_noord, impl_map=strip_orderings)
     extra['ctx'] = dict(count_oracle=count_oracle)
     if ctx_extra: extra['ctx'].update(ctx_extra)
-    return dict(stream='mech', gen=gen_mech_for(focuses), oracle=oracle_mech, nontrivial=nontrivial_mech, distribution=dist_mech,
+    return dict(stream='mech', gen=gen_mech_for(focuses), oracle=oracle_mech, refine=refine_mech, nontrivial=nontrivial_mech, distribution=dist_mech,
                 prep=mech_prep, **extra,
                 rule='2953 systematic scenarios (every operation on every handle kind, sole owner and shared in 9 ways, callbacks with 14 bodies, replace/assign inside with_arc_mut with and without a panic; tools/mechgen.py systematic_cases) followed by random histories of 8..120 (thorough: ..200) handle operations from one PRNG over all 23 handle kinds, 12 constructors, 26 conversion edges, 5 callback forms with nested bodies, injected panics and ~6% malformed operations (tools/mechgen.py); observation per op = status, results, destructor/clone/alloc/dealloc/atomic events; non-trivial = uses at least two of {conversion, borrow-promotion, make_mut/make_unique, unwrap_or_clone, callback, panic, replace/assign, uninit write}; distinct = distinct op lists',
                 cfgs=dict(quick=[('cfg_default', 'debug'), ('cfg_default', 'release')],
@@ -1732,8 +1753,8 @@ def gen_dpanic(tier, rng):
     # copy-on-write / unwrap_or_clone of a shared value whose type has no drop glue, is not Copy, and whose Clone is not a bitwise copy
     for j in range(0, 4): cases.append(('D%d' % n, [[44 + j, 0, 0]])); n += 1
     # zero-sized headers / payloads with drop glue through the constructors
-    for j in range(0, 17): cases.append(('D%d' % n, [[48 + j, 0, 0]])); n += 1
-    for op in ([29, 1, 0], [20, 40, 0], [45, 1, 1], [40, 1, 0], [70, 0, 0], [48, 1, 0]): cases.append(('D%d' % n, [op])); n += 1
+    for j in range(0, 19): cases.append(('D%d' % n, [[48 + j, 0, 0]])); n += 1
+    for op in ([29, 1, 0], [20, 40, 0], [45, 1, 1], [40, 1, 0], [75, 0, 0], [48, 1, 0]): cases.append(('D%d' % n, [op])); n += 1
     return cases
 
 def oracle_dpanic(ops, io, ctx):
@@ -1743,6 +1764,14 @@ def oracle_dpanic(ops, io, ctx):
     parts = ct_split(o)
     if len(parts) != 3: return 'malformed observation'
     d = parts[1]
+    if 65 <= op[0] < 67:
+        what = 'UniqueArc::from_header_and_uninit_slice with a length whose layout cannot be represented (%s)' % ['the slice alone overflows', 'header and count push it over'][op[0] - 65]
+        if len(parts[2]) < 5: return 'malformed observation'
+        during, total, sixth, bad, outstanding = parts[2][:5]
+        if o[0] != 1: return '%s: the constructor did not refuse with a panic' % what
+        if total != 1: return '%s: the header handed to the failed constructor was destroyed %d times (exactly once expected)' % (what, total)
+        if bad or outstanding: return '%s: a block was left behind or a dead value touched' % what
+        return None
     if 60 <= op[0] < 65:
         what = ['Arc<[T]>::from(Vec<T>)', 'Arc::from_header_and_vec', 'collecting an inexact iterator', 'Arc::make_mut on a shared value', 'OffsetArc::make_mut on a shared value'][op[0] - 60]
         if len(parts[2]) < 5: return 'malformed observation'
